@@ -18,6 +18,7 @@ import (
 	sdktrace "go.opentelemetry.io/otel/sdk/trace"
 	"go.opentelemetry.io/otel/trace"
 
+	"verifharness/spanlist"
 	"verifharness/vf"
 )
 
@@ -587,6 +588,16 @@ func main() {
 		c.Floor("trees_with_sampler_named_in_environment", 5000)
 		c.Floor("trees_with_failing_batch_exporter", 1000)
 
+		// ---------------- processor list edited while End walks it ----------------
+		c.Cases("list-edit", c.N(300, 4000), 0, func(k *vf.Case) {
+			desc, vs := spanlist.Run(k.R)
+			for _, v := range vs {
+				k.Violate("sampled-span-not-exported-exactly-once", "processor list edited during End", v, nil)
+			}
+			k.C.Count("list_edit_cases", 1)
+			k.C.Sig("list-edit|" + desc)
+		})
+
 		// ---------------- custom id generator ----------------
 		c.Cases("idgen", c.N(3_000, 30_000), 0, func(k *vf.Case) {
 			r := k.R
@@ -655,6 +666,54 @@ func main() {
 			if exported != 16*nPer*2 || twice > 0 {
 				k.Violate("span-missing-at-simple-exporter", "concurrent ends", fmt.Sprintf("%d of %d sampled spans reached the exporter behind the simple span processor (%d of them more than once)", exported, 16*nPer*2, twice), nil)
 			}
+			// the same through a batch span processor whose exporter is slow and reads its batch again before
+			// it returns (as a marshalling exporter does), while spans keep ending and ForceFlush is called
+			bexp := &slowReadingExp{ids: map[trace.SpanID]int{}}
+			btp := sdktrace.NewTracerProvider(sdktrace.WithBatcher(bexp, sdktrace.WithMaxExportBatchSize(16), sdktrace.WithBatchTimeout(time.Millisecond), sdktrace.WithBlocking()))
+			var bwg sync.WaitGroup
+			stopFlush := make(chan struct{})
+			var flushed sync.WaitGroup
+			flushed.Add(1)
+			go func() {
+				defer flushed.Done()
+				for {
+					select {
+					case <-stopFlush:
+						return
+					default:
+						_ = btp.ForceFlush(context.Background())
+					}
+				}
+			}()
+			nB := nPer / 4
+			for g := 0; g < 8; g++ {
+				bwg.Add(1)
+				go func() {
+					defer bwg.Done()
+					tr := btp.Tracer("b")
+					for i := 0; i < nB; i++ {
+						_, s := tr.Start(context.Background(), "b")
+						s.End()
+					}
+				}()
+			}
+			bwg.Wait()
+			close(stopFlush)
+			flushed.Wait()
+			_ = btp.Shutdown(context.Background())
+			bexp.mu.Lock()
+			bTwice, bChanged := 0, bexp.changed
+			for _, n := range bexp.ids {
+				if n > 1 {
+					bTwice++
+				}
+			}
+			bGot := len(bexp.ids)
+			bexp.mu.Unlock()
+			if bGot != 8*nB || bTwice > 0 || bChanged > 0 {
+				k.Violate("span-missing-at-batch-exporter", "concurrent ends and flushes", fmt.Sprintf("%d of %d sampled spans reached the exporter behind the batch span processor (%d more than once; %d batches changed while the exporter was reading them)", bGot, 8*nB, bTwice, bChanged), nil)
+			}
+			k.C.Count("concurrent_batch_spans", int64(8*nB))
 			if dups > 0 {
 				k.Violate("span-id-not-unique", "concurrent / across providers", fmt.Sprintf("%d duplicate span ids", dups), nil)
 			}
@@ -691,6 +750,37 @@ func (e *countingExp) ExportSpans(_ context.Context, ss []sdktrace.ReadOnlySpan)
 	return nil
 }
 func (e *countingExp) Shutdown(context.Context) error { return nil }
+
+// slowReadingExp counts what it is handed, dawdles, and reads the batch a second time before returning.
+type slowReadingExp struct {
+	mu      sync.Mutex
+	ids     map[trace.SpanID]int
+	changed int
+}
+
+func (e *slowReadingExp) ExportSpans(_ context.Context, ss []sdktrace.ReadOnlySpan) error {
+	first := make([]trace.SpanID, len(ss))
+	for i, s := range ss {
+		first[i] = s.SpanContext().SpanID()
+	}
+	time.Sleep(50 * time.Microsecond)
+	diff := false
+	for i, s := range ss {
+		if s == nil || s.SpanContext().SpanID() != first[i] {
+			diff = true
+		}
+	}
+	e.mu.Lock()
+	for _, id := range first {
+		e.ids[id]++
+	}
+	if diff {
+		e.changed++
+	}
+	e.mu.Unlock()
+	return nil
+}
+func (e *slowReadingExp) Shutdown(context.Context) error { return nil }
 
 type scriptGen struct {
 	mu           sync.Mutex
